@@ -1,4 +1,5 @@
 import Pose.Model.Lie
+import Pose.Model.Batch
 /-!
 # Model of `pypose/function/geometry.py`: point-cloud filters and camera helpers
 
@@ -319,33 +320,56 @@ def finfoTiny : Dtype → α
   | .f32 => q 1 (2 ^ 126)
   | .f64 => q 1 (2 ^ 1022)
 
-/-- `pdim = points.size(-1) if pdim == None else pdim; assert points.size(-1) >= pdim` -/
-def resolvePdim (pdim : Option Nat) (pts : List (Pt α)) : Option Nat :=
+/-- `pdim = points.size(-1) if pdim == None else pdim; assert points.size(-1) >= pdim`.  `D = points.size(-1)` is an
+argument of its own: a list of rows forgets it for the empty cloud `(0, D)`. -/
+def resolvePdim (pdim : Option Nat) (D : Nat) : Option Nat :=
   match pdim with
-  | none => some (width pts)
-  | some p => if width pts < p then none else some p
+  | none => some D
+  | some p => if D < p then none else some p
+
+/-- `torch.linalg.norm(diff, dim=-1, ord)` raises for `ord = inf` over an EMPTY last dimension (`pdim = 0` or `D = 0`),
+whatever the number of points; the 1- and 2-norm of the empty vector are `0` -/
+def normRaises (o : Norm) (pd : Nat) : Bool :=
+  match o with
+  | .linf => pd == 0
+  | _ => false
 
 /-- `nbr_filter(points, nbr, radius, pdim=None, ord=2, return_mask=False)`: filtered cloud and, if asked for, the mask -/
-def nbrFilterApi (pts : List (Pt α)) (n : Int) (radius : α) (pdim : Option Nat) (o : Norm) (returnMask : Bool) :
+def nbrFilterApi (D : Nat) (pts : List (Pt α)) (n : Int) (radius : α) (pdim : Option Nat) (o : Norm) (returnMask : Bool) :
     Option (List (Pt α) × Option (List Bool)) :=
-  (resolvePdim pdim pts).map fun pd =>
-    (nbrFilter o pd radius n pts, if returnMask then some (nbrMask o pd radius n pts) else none)
+  (resolvePdim pdim D).bind fun pd =>
+    if normRaises o pd then none
+    else some (nbrFilter o pd radius n pts, if returnMask then some (nbrMask o pd radius n pts) else none)
 
 /-- `knn_filter(points, k, pdim=None, radius=None, ord=2)` -/
-def knnFilterApi (topk : Bool → List α → Nat → List Nat) (pts : List (Pt α)) (kk : Nat) (pdim : Option Nat)
+def knnFilterApi (topk : Bool → List α → Nat → List Nat) (D : Nat) (pts : List (Pt α)) (kk : Nat) (pdim : Option Nat)
     (radius : Option α) (o : Norm) : Option (List (Pt α)) :=
-  (resolvePdim pdim pts).bind fun pd => knnFilter topk o pd kk radius pts
+  (resolvePdim pdim D).bind fun pd => if normRaises o pd then none else knnFilter topk o pd kk radius pts
+
+/-- `knn(ref, nbr, k, ord, dim=-1, largest, sorted=True)` on clouds of width `D` -/
+def knnApi (topk : Bool → List α → Nat → List Nat) (D : Nat) (o : Norm) (largest : Bool) (kk : Nat)
+    (ref nbr : List (Pt α)) : Option (List (List α × List Nat)) :=
+  if normRaises o D then none else knn topk o largest kk ref nbr
+
+/-- `random_filter(points, num)`: `assert points.size(-1) >= 1`, `assert num <= N` -/
+def randomFilterApi (D : Nat) (perm : List Nat) (num : Nat) (pts : List (Pt α)) : Option (List (Pt α)) :=
+  if D < 1 then none else randomFilter perm num pts
+
+/-- `random_filter` on a batch `(B…, N, D)`: ONE draw of `randperm(N)` indexes every batch item -/
+def randomFilterBatch (D : Nat) (perm : List Nat) (num : Nat) (clouds : List (List (Pt α))) : List (Option (List (Pt α))) :=
+  clouds.map (randomFilterApi D perm num)
 
 /-- is this scalar zero? (`item != 0`) -/
 def isZero (x : α) : Bool := Scalar.le x (k 0) && Scalar.le (k 0) x
 
-/-- `voxel_filter(points, voxel, random=False)`: `assert D >= vdim`, `assert all(item != 0)`, `torch.min` of an empty
-cloud raises; then the centroid or the member branch -/
+/-- `voxel_filter(points, voxel, random=False)`: `assert D >= vdim`, `assert all(item != 0)`; `torch.min` of an empty
+cloud raises; `torch.unique(dim=-2)` of an `(N, 0)` index tensor raises (`voxel = []`); then the centroid or the member branch -/
 def voxelFilterApi (tr : α → Int) (uniq : List (List Int) → List (List Int)) (argsort : List Nat → List Nat)
-    (rnd : List Nat) (pts : List (Pt α)) (vox : List α) (random : Bool) : Option (List (Pt α)) :=
-  if width pts < vox.length then none
+    (rnd : List Nat) (D : Nat) (pts : List (Pt α)) (vox : List α) (random : Bool) : Option (List (Pt α)) :=
+  if D < vox.length then none
   else if vox.any isZero then none
   else if pts.isEmpty then none
+  else if vox.isEmpty then none
   else some (if random then voxelRandom tr uniq argsort rnd vox pts else voxelFilter tr uniq vox pts)
 
 /-- `homo2cart` with the dtype's own `tiny` -/
@@ -363,5 +387,33 @@ def reprojerrApi (dt : Dtype) (K : Mat3 α) (ext : Option (SE3 α)) (reduction :
   | "sum" => some (reprojerr (finfoTiny dt) K ext .sum p px)
   | "norm" => some (reprojerr (finfoTiny dt) K ext .norm p px)
   | _ => none
+
+
+/-! ## camera helpers on batches: torch broadcasting of `points (bp…, n, 3)`, `intrinsics (bk…, 3, 3)`, `extrinsics (be…, 7)`,
+`pixels (bp…, n, 2)`, `depth (bd…, n)` (C06's `Batch.broadcastShapes` / `Batch.proj`); `none` = the shapes do not broadcast -/
+
+def bcast3 (a b c : Batch.Shape) : Option Batch.Shape := (Batch.broadcastShapes a b).bind fun ab => Batch.broadcastShapes ab c
+
+/-- `point2pixel(points, intrinsics, extrinsics)`: item `i` of the broadcast batch projects the `n` points of
+`points[proj i]` with `intrinsics[proj i]` and `extrinsics[proj i]` -/
+def point2pixelBatch (dt : Dtype) (pts : Batch.T (List (Vec3 α))) (K : Batch.T (Mat3 α)) (ext : Option (Batch.T (SE3 α))) :
+    Option (Batch.T (List (List α))) :=
+  match ext with
+  | none => (Batch.broadcastShapes pts.shape K.shape).map fun out =>
+      ⟨out, fun kx => let i := Batch.unravel out kx
+        (pts.get (Batch.proj pts.shape i)).map (point2pixelApi dt (K.get (Batch.proj K.shape i)) none)⟩
+  | some E => (bcast3 pts.shape K.shape E.shape).map fun out =>
+      ⟨out, fun kx => let i := Batch.unravel out kx
+        (pts.get (Batch.proj pts.shape i)).map
+          (point2pixelApi dt (K.get (Batch.proj K.shape i)) (some (E.get (Batch.proj E.shape i))))⟩
+
+/-- `pixel2point(pixels, depth, intrinsics)`: `assert depth.size(-1) == pixels.size(-2)`; item `i` un-projects pixel `j` of
+`pixels[proj i]` with depth `depth[proj i][j]` and `intrinsics[proj i]`; `none` also when a focal length is zero anywhere -/
+def pixel2pointBatch (px : Batch.T (List (α × α))) (depth : Batch.T (List α)) (K : Batch.T (Mat3 α)) :
+    Option (Batch.T (List (Option (Vec3 α)))) :=
+  (bcast3 px.shape depth.shape K.shape).map fun out =>
+    ⟨out, fun kx => let i := Batch.unravel out kx
+      List.zipWith (fun (uv : α × α) d => pixel2point (K.get (Batch.proj K.shape i)) uv.1 uv.2 d)
+        (px.get (Batch.proj px.shape i)) (depth.get (Batch.proj depth.shape i))⟩
 
 end PP.Cloud
